@@ -63,7 +63,7 @@ theorem pres_step {P : State R → Prop} (k n : String) (eff : State R → State
 theorem pres_readStep {P : State R → Prop} (k n : String) : Pres (onSt P) (readStep (R := R) k n) :=
   pres_step k n id (fun _ h => h)
 
-theorem pres_emit {P : State R → Prop} (m : Msg) : Pres (onSt P) (emit (R := R) m) := fun _ _ h => h
+theorem pres_emit {P : State R → Prop} (m : Msg R) : Pres (onSt P) (emit (R := R) m) := fun _ _ h => h
 
 /-- continue with the state that was read -/
 theorem pres_getSt_bind {α} {I : MS R → Prop} {f : State R → M R α}
